@@ -21,6 +21,86 @@ FIXED = [("bloom::sketch::BloomFilter", "bit_array"), ("countmin::sketch::CountM
          ("hll::array4::Array4", "bytes"), ("hll::array6::Array6", "bytes"), ("hll::array8::Array8", "bytes")]
 
 
+def hll_chain(prog):
+    """('ok', text) | ('bad', text, fn) | ('undecided', why)"""
+    hs = [f for f in prog.fns.values() if not f.promoted and (f.owner == "hll::sketch::HllSketch" or f.id.startswith("hll::sketch::"))]
+    to_set, to_arr_list, to_arr_set, grow_fn = [], [], [], None
+    for f in hs:
+        s = Sym(prog, f)
+        for b, site in f.calls():
+            cal = site.get("callee") or ""
+            args = [show(s.at(b).operand(a)) for a in site["args"]]
+            if cal.endswith("promote_container_to_set"):
+                to_set.append((f, s, b))
+            elif cal.endswith("promote_container_to_array"):
+                (to_arr_set if any("Set" in a or "set" in a.split(".")[0:3].__str__() for a in args) and not any("List" in a for a in args) else to_arr_list).append((f, s, b, args))
+            elif cal.endswith("HashSet::new") and f.item_name and "grow" in f.item_name:
+                grow_fn = (f, s, b, site)
+    if grow_fn is None:
+        for f in hs:
+            for b, site in f.calls():
+                if (site.get("callee") or "").endswith("HashSet::new") and f.argc >= 1 and "HashSet" in (f.local_ty(1) or ""):
+                    grow_fn = (f, Sym(prog, f), b, site)
+    if not to_set or not to_arr_set or grow_fn is None:
+        return ("undecided", "promotion / growth sites not found")
+    d = C.fn_one(prog, "hll::hash_set::HashSet", "default")
+    init = None
+    if d is not None:
+        sd = Sym(prog, d)
+        for b, site in d.calls():
+            if (site.get("callee") or "").endswith("HashSet::new"):
+                init = C.const_of(sd.operand(site["args"][0]))
+    if init is None:
+        return ("undecided", "initial set size not found")
+    gf, gs, gb, gsite = grow_fn
+    garg = gs.at(gb).operand(gsite["args"][0])
+    gleaves = [k for k in formula.top_leaves(garg) if "lg_size" in k or "lg" in k]
+    if len(gleaves) != 1:
+        return ("undecided", "growth step %s has no single size leaf" % show(garg)[:60])
+
+    def grow(lg):
+        return formula.evaluate(garg, {"@prog": prog, gleaves[0]: lg})
+
+    def pred_of(f, s, b, lgk, lg=None):
+        pp = C.path_pred(s, b)
+        env = {"@prog": prog, "self.lg_config_k": lgk}
+        for pth in s.path_conditions(b) or []:
+            for c, tv in pth:
+                for k in formula.top_leaves(c):
+                    if "lg_config_k" in k or k in ("lg_k",):
+                        env[k] = lgk
+                    elif "lg_size" in k and lg is not None:
+                        env[k] = lg
+                    elif lg is None and (k.endswith(".len") or k.startswith("len(") or k.endswith("capacity")):
+                        env[k] = 8          # a full list: the published list size (2^3 coupons)
+        return pp(env)
+    bad = None
+    for lgk in range(4, 22):
+        goes_set = any(pred_of(f, s, b, lgk) is not False for (f, s, b) in to_set)
+        goes_arr = any(pred_of(f, s, b, lgk) is not False for (f, s, b, a) in to_arr_list)
+        if goes_set and goes_arr:
+            return ("undecided", "where a full list goes is not decided by lg_k alone (lg_k = %d)" % lgk)
+        if not goes_set:
+            continue
+        lg, seen = init, []
+        done = False
+        for _ in range(30):
+            seen.append(lg)
+            if any(pred_of(f, s, b, lgk, lg) is not False for (f, s, b, a) in to_arr_set):
+                done = True
+                break
+            lg = grow(lg)
+            if not isinstance(lg, int) or lg > 31:
+                break
+        if not done or seen[-1] > lgk:
+            bad = (lgk, seen)
+            break
+    if bad:
+        return ("bad", "for lg_k = %d a full list becomes a coupon set of 2^%d slots that then grows through sizes %s without ever being converted to the "
+                "register array (its image grows with the stream)" % (bad[0], init, ["2^%d" % x for x in bad[1][:6]]), to_set[0][0].id)
+    return ("ok", "list -> set -> array chain closes for every lg_k 4..=21")
+
+
 def run(prog, ctx):
     res = Result("C18")
     res.entry_points = ["every function of the crate (who-may-grow)", "HllSketch::update", "TDigestMut::update"]
@@ -131,6 +211,18 @@ def run(prog, ctx):
                     T, init, set_promo, T), uw.id)
         else:
             res.undecided += 1
+    # ---------------- C18.K (chain) the list -> set -> array chain by value, for every lg_k: where a full list goes, the size the set
+    # starts with, how it grows, and at which size it is converted are evaluated together -- each piece can look fine alone while for
+    # one lg_k the set never meets its conversion size and grows with the stream
+    try:
+        chain = hll_chain(prog)
+    except Exception as ex:       # a piece could not be located / evaluated: undecided
+        chain = ("undecided", repr(ex))
+    n_k += 1
+    if chain[0] == "undecided":
+        res.tri(None, "C18.K", "C18.K|hll|chain", "list/set/array chain not evaluable: %s" % (chain[1],))
+    else:
+        res.tri(chain[0] == "ok", "C18.K", "C18.K|hll|chain", chain[1], chain[2] if len(chain) > 2 else None)
     # aux map growth
     cg = C.fn_one(prog, "hll::aux_map::AuxMap", "check_grow")
     ins = C.fn_one(prog, "hll::aux_map::AuxMap", "insert")
